@@ -78,6 +78,8 @@ def wellformed(s) -> str | None:
 def check_cases(cases: list[dict], rep: Report, known: dict) -> None:
     ecs, ncs, sem = [], [], []
     for c in cases:
+        if rep.stop():
+            break
         e = wire.build_raw(c["e"])
         x, route = c["x"], c["route"]
         with common.WarnCatcher() as wc:
@@ -191,6 +193,8 @@ def raw_symbolic_tie(cases: list[dict], rep: Report) -> None:
     b = Batch()
     rev = []
     for c in cases:
+        if rep.stop():
+            break
         e = wire.build_raw(c["e"])
         fwd = call(lambda: e._synthetic_partial(c["x"]))
         ecs.append(ExprCase((c["e"], c["x"], "raw-forward"), f"symfwd {c['x']} {c['e']}", fwd,
